@@ -16,6 +16,30 @@ CLAIMED = {
         technique="TLA+ refinement (HashTableImpl => HashMap) checked by TLC; state-graph edge tours replayed on the real "
                   "table; TLC trace validation of recorded executions",
         design="4/C20"),
+    "C01": dict(
+        text="TLC checks exhaustively (8 grammar shapes incl. null chains, loops, unreachable final; every acoustic outcome "
+             "and every pruning; small frame/history bounds, plus simulation at larger bounds) that the transcribed history "
+             "table, one-step null propagation, word transitions, fsg_search_find_exit and backtrace only ever report "
+             "sentences (final) / path prefixes (partial) of the user's grammar; the real decoder is then run over a seeded "
+             "matrix of grammars x audio x beams x chunkings with partial and final queries and every recorded result is "
+             "validated by TLC against the same Layer-A predicate using NFA acceptance of the user's grammar.",
+        note="Trusted: TLC; the recorder harness/decoder/dec_drv.c; the user's grammar is the FSG returned by the public "
+             "readers/compiler before the search adds silence/alternate arcs (JSGF semantics is C05); filler words are those "
+             "flagged by the dictionary. Real-code coverage = the executed cases (160 quick / 2500 thorough per seed).",
+        technique="TLA+ abstract token-passing search model checked by TLC (invariants = property predicates); TLC trace "
+                  "validation of recorded decoder results against the property-level specification",
+        design="4/C01"),
+    "C03": dict(
+        text="Same abstract search model: TLC checks that the transcribed segment construction (fsg_seg_bp2itor) tiles "
+             "[0, last frame] with no gap/overlap, keeps null segments zero-length, and that segment scores sum to the path "
+             "score, for every search outcome at the bounds; every recorded real result (partial and final) and every "
+             "processing call's return value is validated by TLC: tiling, null markers, hypothesis = base forms of non-filler "
+             "segments, score additivity, per-call frame counts and their sum against the front-end frame count formula.",
+        note="Trusted: TLC; recorder; frames searched are counted by a linker wrap of acmod_score; the frame-count formula "
+             "NF(samples) is the one established for the front end in C06 (FrameStream).",
+        technique="TLA+ abstract search model checked by TLC; TLC trace validation of recorded segmentations, scores and "
+                  "frame accounting",
+        design="4/C03"),
 }
 
 PENDING = "not built yet in this round (planned, see DESIGN.md section 4); no check is registered, so nothing is claimed"
